@@ -147,6 +147,15 @@ Theorem C14_oracle_sound : forall c o, ok c o = true <-> Spec c o.
 Proof. exact oracle_sound. Qed.
 Print Assumptions C14_oracle_sound.
 
+(* the cases on which the oracle demands the round trip: built messages, and messages produced by
+   builder / create_submessage calls only that are built up to the content_length the
+   implementation computed itself *)
+Theorem C14_demanded_spec : forall ops m,
+  demandedb ops m = true <->
+  built m \/ (existsb is_raw ops = false /\ built_hdrb (m_hdr m) = true /\
+              forallb built_sub_looseb (m_subs m) = true).
+Proof. exact demanded_spec. Qed.
+
 Theorem C14_model_ok : forall c, ok c (run c) = true.
 Proof. exact model_ok. Qed.
 Print Assumptions C14_model_ok.
